@@ -38,7 +38,7 @@ CHECKS = {
  "C11": ("proptest + table-driven invalid-encoding splicing through native/bincode/JSON decoders; independent validity predicate",
          "Every group-element/scalar field of every type gets every invalid encoding class (identity, off-curve, out-of-range, non-canonical/negative ristretto, small-order Curve25519 in all representable forms, zero/>=order scalars) with all other fields valid, through the native, bincode and JSON decoders; all must be rejected.",
          "Class table is applied exhaustively; values inside a class are sampled. Invalidity is confirmed by a predicate built on the curve crates.", "5 C11"),
- "C12": ("proptest + catch_unwind around every call: random/mutated decoder inputs, adversarial field values (invalid encodings, and valid values taken from other positions of the same run) that are then used, cross-session deliveries, per-step over-limit refusal grid, awkward KSF parameters; libFuzzer targets decoders and server_start (thorough) + corpus replay",
+ "C12": ("proptest + catch_unwind around every call: random/mutated decoder inputs, adversarial field values (invalid encodings, and valid values taken from other positions of the same run) that are then used, cross-session deliveries, per-step over-limit refusal grid, awkward KSF parameters; libFuzzer targets decoders and server_start (thorough) + corpus replay; the whole check runs a second time on a build with overflow checks and debug assertions",
          "No call may panic; in-range lengths complete, over-limit password/identity/context never complete a registration or login.",
          "Sampling; non-termination is reported as inconclusive by a watchdog.", "5 C12"),
  "C13": ("proptest differential: run with save/reload plans (native, bincode, JSON at 5 persistence points) vs uninterrupted run on equal tapes; libFuzzer targets decoders (accepted values survive every codec) and history (states pushed through a codec between the steps of adversarial histories) in the thorough tier + corpus replay",
